@@ -1214,3 +1214,210 @@ func runAppendOnly(p *Program, c *Collector, ao AppendOnlySpec) {
 		c.Ob(ao.Props, "E7.append-only", key, Discharged, "the list is only reset and appended to", "", true)
 	}
 }
+
+// ---------------------------------------------------------------------------------------------
+// paired undo: Exit<R> takes one level off a package-level depth counter or pops a package-level stack without looking at its
+// node; then Enter<R> must have added that level, or pushed, on every path — an Enter that returns early before the increment
+// (or pushes only for some nodes) lets the Exit undo something an enclosing node did.
+func runPairedUndo(p *Program, c *Collector, a FuncRuleSpec) {
+	type pairKey struct{ recv, rule string }
+	enters, exits := map[pairKey]*ssa.Function{}, map[pairKey]*ssa.Function{}
+	for _, fn := range expandFuncs(p, c, a.Funcs, a.Props...) {
+		if fn.Signature.Recv() == nil || fn.Parent() != nil || len(fn.Blocks) == 0 {
+			continue
+		}
+		_, rn := namedTypeName(fn.Signature.Recv().Type())
+		switch {
+		case strings.HasPrefix(fn.Name(), "Enter"):
+			enters[pairKey{rn, strings.TrimPrefix(fn.Name(), "Enter")}] = fn
+		case strings.HasPrefix(fn.Name(), "Exit"):
+			exits[pairKey{rn, strings.TrimPrefix(fn.Name(), "Exit")}] = fn
+		}
+	}
+	var keys []pairKey
+	for k := range enters {
+		if exits[k] != nil {
+			keys = append(keys, k)
+		}
+	}
+	sort.Slice(keys, func(i, j int) bool { return keys[i].recv+keys[i].rule < keys[j].recv+keys[j].rule })
+	// the "do" and "undo" stores of a function on package-level counters and stacks
+	type op struct {
+		g  *ssa.Global
+		in ssa.Instruction
+		up bool
+	}
+	opsOf := func(fn *ssa.Function) []op {
+		var out []op
+		for _, b := range fn.Blocks {
+			for _, in := range b.Instrs {
+				st, ok := in.(*ssa.Store)
+				if !ok {
+					continue
+				}
+				g, whole := globalOfAddr(st.Addr)
+				if g == nil || !whole {
+					continue
+				}
+				switch v := st.Val.(type) {
+				case *ssa.BinOp:
+					if loadedGlobal(v.X) == g {
+						if k, isC := constInt(v.Y); isC && k == 1 {
+							if v.Op == token.ADD {
+								out = append(out, op{g, in, true})
+							} else if v.Op == token.SUB {
+								out = append(out, op{g, in, false})
+							}
+						}
+					}
+				case *ssa.Call:
+					if bi, ok := v.Call.Value.(*ssa.Builtin); ok && bi.Name() == "append" && len(v.Call.Args) > 0 && loadedGlobal(v.Call.Args[0]) == g {
+						out = append(out, op{g, in, true})
+					}
+				case *ssa.Slice:
+					if loadedGlobal(v.X) == g && v.High != nil && v.Low == nil {
+						out = append(out, op{g, in, false})
+					}
+				}
+			}
+		}
+		return out
+	}
+	n := 0
+	for _, k := range keys {
+		enter, exit := enters[k], exits[k]
+		sx := newSymFn(p, exit, 0)
+		sx.inlineOK = func(*ssa.Function) bool { return false }
+		eo := opsOf(enter)
+		for _, undo := range opsOf(exit) {
+			if undo.up {
+				continue
+			}
+			var do *op
+			for i := range eo {
+				if eo[i].g == undo.g && eo[i].up {
+					do = &eo[i]
+				}
+			}
+			if do == nil {
+				continue
+			}
+			n++
+			key := "pairedundo:" + p.FuncKey(enter) + " " + undo.g.Name()
+			// Exit decides by its own node: nothing to demand of Enter
+			byNode := false
+			sx.pathCond(undo.in.Block()).walk(func(x *Sym) {
+				if x.Op == "param" && x.Name == "p1" {
+					byNode = true
+				}
+			})
+			if byNode {
+				c.Ob(a.Props, "E7.paired-undo", key, Discharged, exit.Name()+" undoes under a test of its own node", p.InstrPos(undo.in), true)
+				continue
+			}
+			var skipping *ssa.BasicBlock
+			for _, b := range enter.Blocks {
+				if len(b.Instrs) == 0 {
+					continue
+				}
+				if _, isRet := b.Instrs[len(b.Instrs)-1].(*ssa.Return); isRet && !do.in.Block().Dominates(b) {
+					skipping = b
+				}
+			}
+			if skipping != nil {
+				c.Ob(a.Props, "E7.paired-undo", key, Violated, a.What+": "+exit.Name()+" takes "+undo.g.Name()+" back for every "+k.rule+" ("+p.InstrPos(undo.in)+"), but "+enter.Name()+" can return ("+p.InstrPos(skipping.Instrs[len(skipping.Instrs)-1])+") without having advanced it ("+p.InstrPos(do.in)+"): the Exit then undoes what an enclosing node did", p.InstrPos(do.in), false)
+			} else {
+				c.Ob(a.Props, "E7.paired-undo", key, Discharged, enter.Name()+" advances "+undo.g.Name()+" on every path", p.InstrPos(do.in), true)
+			}
+		}
+	}
+	if n == 0 {
+		c.Ob(a.Props, "E7.paired-undo", "pairedundo:"+strings.Join(a.Funcs, ","), Discharged, a.What+": no callback pair advances and takes back a package-level counter or stack", "", true)
+	}
+}
+
+// ---------------------------------------------------------------------------------------------
+// handled means filed: a helper that tells its caller "I have taken care of this one" (returns true), after which the caller
+// stops, may say so only on paths on which it has filed the record: every `return true` is dominated by the append to the
+// package-level list (the handler of an interface-declared method vanished when the helper reported true without an entry).
+type HandledSpec struct {
+	Props  []string `json:"props"`
+	Func   string   `json:"func"`
+	Global string   `json:"global"` // "<rel pkg>.<var>": the list the record is filed in
+	What   string   `json:"what"`
+}
+
+func runHandledMeansFiled(p *Program, c *Collector, h HandledSpec) {
+	fn := p.Func(h.Func)
+	if fn == nil {
+		c.Anchor(h.Props, "E7: handled-means-filed: %s does not resolve", h.Func)
+		return
+	}
+	key := "handled:" + h.Func
+	var files []ssa.Instruction
+	for _, b := range fn.Blocks {
+		for _, in := range b.Instrs {
+			if st, ok := in.(*ssa.Store); ok {
+				if g, whole := globalOfAddr(st.Addr); g != nil && whole && p.GlobalKey(g) == h.Global {
+					if call, ok := st.Val.(*ssa.Call); ok {
+						if bi, ok := call.Call.Value.(*ssa.Builtin); ok && bi.Name() == "append" {
+							files = append(files, in)
+						}
+					}
+				}
+			}
+		}
+	}
+	if len(files) == 0 {
+		c.Ob(h.Props, "E7.handled-means-filed", key, Undecided, h.What+": "+shortFn(h.Func)+" no longer appends to "+h.Global+" (anchor lost)", p.FuncPos(fn), false)
+		return
+	}
+	var bad ssa.Instruction
+	nTrue := 0
+	for _, b := range fn.Blocks {
+		if len(b.Instrs) == 0 {
+			continue
+		}
+		ret, ok := b.Instrs[len(b.Instrs)-1].(*ssa.Return)
+		if !ok || len(ret.Results) != 1 {
+			continue
+		}
+		// the blocks in which the result is the constant true: the return block itself, or the predecessors that feed true
+		// into a phi
+		var trueBlocks []*ssa.BasicBlock
+		switch v := ret.Results[0].(type) {
+		case *ssa.Const:
+			if v.Value != nil && v.Value.String() == "true" {
+				trueBlocks = append(trueBlocks, b)
+			}
+		case *ssa.Phi:
+			for i, e := range v.Edges {
+				if cst, ok := e.(*ssa.Const); ok && cst.Value != nil && cst.Value.String() == "true" {
+					trueBlocks = append(trueBlocks, v.Block().Preds[i])
+				}
+			}
+		default:
+			nTrue++ // a computed result: not decided here
+		}
+		for _, tb := range trueBlocks {
+			nTrue++
+			ok := false
+			for _, f := range files {
+				if f.Block() == tb || f.Block().Dominates(tb) {
+					ok = true
+				}
+			}
+			if !ok && bad == nil {
+				bad = tb.Instrs[len(tb.Instrs)-1]
+			}
+		}
+	}
+	switch {
+	case bad != nil:
+		c.Ob(h.Props, "E7.handled-means-filed", key, Violated, h.What+": "+shortFn(h.Func)+" reports the record as handled on a path ("+p.InstrPos(bad)+") on which it has not filed it in "+h.Global+": the caller stops there and the record is lost", p.InstrPos(bad), false)
+	case nTrue == 0:
+		c.Ob(h.Props, "E7.handled-means-filed", key, Undecided, h.What+": "+shortFn(h.Func)+" never reports true any more (anchor lost)", p.FuncPos(fn), false)
+	default:
+		c.Ob(h.Props, "E7.handled-means-filed", key, Discharged, "true is reported only after the record was filed", p.FuncPos(fn), true)
+	}
+}
